@@ -105,8 +105,8 @@ def _maybe_company(rng, plan_actors, ops, max_iters=40):
 
 class C02(SolverSuite):
     prop = "C02"
-    quick_runs = 2600
-    thorough_runs = 30000
+    quick_runs = 12000
+    thorough_runs = 150000
     rule = ("one seeded plan = one or two solvers driven by a random mixture of DoGlobalIteration(k)/Solve/GetResults; "
             "every trial of every prefix is checked against the from-scratch AGP model. non-trivial: >=10 trials, the slope "
             "estimate M grew above its floor at least once and at least one non-boundary interval was subdivided; distinct = "
@@ -145,8 +145,8 @@ class C02(SolverSuite):
 
 class C03(SolverSuite):
     prop = "C03"
-    quick_runs = 2400
-    thorough_runs = 30000
+    quick_runs = 12000
+    thorough_runs = 150000
     rule = ("Solve-driven plans over objectives/boxes/r with edge configurations: itersLimit in {1,2,3}, eps>=1, eps placed "
             "1e-6 above/below an interval length the same search is known to subdivide (pre-run), budgets T*-1,T*,T*+1, optional "
             "DoGlobalIteration prefix. non-trivial: model stop index T*>=3 or an enumerated edge configuration; distinct = hash of "
@@ -226,8 +226,8 @@ TIE_FAMILIES = ["const", "lattice", "lattice", "step", "step", "cones", "sines"]
 
 class C04(SolverSuite):
     prop = "C04"
-    quick_runs = 2200
-    thorough_runs = 25000
+    quick_runs = 12000
+    thorough_runs = 150000
     rule = ("tie-heavy objectives (const, lattice k/8, step) and ordinary ones; the best-trial invariant is evaluated after every "
             "op, inside every OnEndIteration/OnMethodStop callback and on every returned Solution, alone and in the company of an "
             "interleaved second solver, with optional refinement. non-trivial: the optimum changed >=2 times or >=2 trials tie "
@@ -265,8 +265,8 @@ ADVERSARIAL = ["linear", "linear", "paraboloid", "paraboloid", "cones", "sines"]
 
 class C05(SolverSuite):
     prop = "C05"
-    quick_runs = 1800
-    thorough_runs = 20000
+    quick_runs = 12000
+    thorough_runs = 150000
     rule = ("adversarial environments (linear, paraboloid with the vertex outside the box, cones centred outside) with the "
             "domain trap on: every call crossing the objective seam in the global and local phases and every returned point is "
             "checked against the box; refinement via refineSolution and via explicit DoLocalRefinement(n), n in {-1,1,5,50}. "
@@ -296,8 +296,8 @@ class C05(SolverSuite):
 
 class C06(SolverSuite):
     prop = "C06"
-    quick_runs = 1600
-    thorough_runs = 20000
+    quick_runs = 10000
+    thorough_runs = 120000
     rule = ("the search-information record (order, links, count, bijection with the objective log, lengths, images, values) is "
             "checked after every op and inside every OnEndIteration, for one solver or two interleaved (incl. re-entrantly). "
             "non-trivial: >=10 items and at least one insertion to the left of the previous insertion; distinct = hash of "
@@ -331,8 +331,8 @@ class C06(SolverSuite):
 
 class C20(SolverSuite):
     prop = "C20"
-    quick_runs = 2500
-    thorough_runs = 30000
+    quick_runs = 12000
+    thorough_runs = 150000
     rule = ("config swarm: evolventDensity m in 2..12 is a per-run knob, N in 2..5, any box/objective, 10-60 trials; every "
             "coordinate of every global-phase point crossing the objective seam must be lower+(j+1/2)*side/2^m. non-trivial: "
             "m != 10 (the default would hide a solver that ignores the parameter) and >=10 trials; distinct = hash of "
